@@ -115,7 +115,7 @@ func Prop() *core.Prop {
 			"close_fail_cases", "close_answered_cases", "post_close_contract_checked", "close_answered_while_write-blocked", "close_answered_while_read-blocked", "local_close_failed_timeout", "local_close_failed_write-fails", "close_concurrent_with_inbound_data", "packets_after_failed_or_concurrent_close", "serve_loop_alive_after_failed_close",
 			"listener_cases", "listener_expects_given_up", "listener_expect_took_precedence", "listener_expect_replaced", "listener_closed_while_open_pending",
 			"listener_close_unblocked_accept", "listener_relisten_works", "listener_concurrent_expects", "listener_open_refused_closed_listener", "listener_streams_used",
-			"data_packets_text_in_several_tokens_or_wrapped", "flush_checkpoints", "flush_checkpoints_read_by_peer", "two_writer_cases", "second_writer_queued_behind_unacknowledged_packet", "malformed_refusals_of_data_iq", "refused_packet_reported_to_writer",
+			"data_packets_text_in_several_tokens_or_wrapped", "flush_checkpoints", "flush_checkpoints_read_by_peer", "packets_for_sid_closed_by_peer_during_write", "two_writer_cases", "second_writer_queued_behind_unacknowledged_packet", "malformed_refusals_of_data_iq", "refused_packet_reported_to_writer",
 			"oversize_refusals_checked_against_reader", "set_read_buffer_unlimited", "set_read_buffer_below_block", "passive_side_holds_base64_remainder_at_close", "passive_side_unflushed_at_close", "serve_loops_alive_after_transfer",
 			"forced_I1_reached", "forced_I2_reached", "forced_I3_reached",
 		},
